@@ -188,7 +188,7 @@ def _deep_equal(a, b):
         return a is b
 
 
-CB_BEHAVIOURS = ("fresh", "alias-arg", "memo", "readonly", "guarded-view", "memo-readonly")
+CB_BEHAVIOURS = ("fresh", "alias-arg", "memo", "readonly", "guarded-view", "memo-readonly", "reentrant")
 
 
 class SimCallback:
@@ -197,6 +197,8 @@ class SimCallback:
     fn(*args) computes the true value.  `identity` = the true value *is* the first argument (f(x) = x),
     which is the only case in which 'return the very array received' is a legal behaviour.
     """
+
+    side_effect = None  # set by the engine: what a "reentrant" callback does with the library while it is being called
 
     def __init__(self, name, fn, behaviour="fresh", raise_at=None, identity=False):
         self.name = name
@@ -215,6 +217,8 @@ class SimCallback:
         if self.raise_at is not None and k == self.raise_at:
             raise SimCancel(f"{self.name}@{k}")
         b = self.behaviour
+        if b == "reentrant" and SimCallback.side_effect is not None and k % 5 == 0:
+            SimCallback.side_effect()  # the caller's callback uses the library itself, in the middle of the library's call
         if b == "alias-arg" and self.identity and isinstance(args[0], np.ndarray):
             out = args[0]
             # the argument belongs to the library/SciPy; we only record that aliasing happened
